@@ -1,5 +1,133 @@
-import RSVerif.Basic
-/- C10: line-protocol driver (stub) -/
+import RSVerif.Model.Resp
+/-
+Line protocol for C10: what the specification / the proved model predicts for each case of go/harness/c10.go.
+Trees in Polish notation (see the header of c10.go).  For well-formed trees the `enc` line is printed from the
+*specification* (`Spec.Resp.enc`, and the tree itself as the decode result — `Properties.C10.roundtrip`), not from
+the table-driven encoder model, so a wrong table bound shows even if model and code agree with each other.
+-/
 namespace RSVerif.Drive.C10
-def handle (_line : String) : String := "unimplemented"
+open RSVerif RSVerif.Spec.Resp RSVerif.Resp
+
+mutual
+def render : Resp → List String
+  | .str b => ["S" ++ hexOrDash b]
+  | .err b => ["E" ++ hexOrDash b]
+  | .int i => ["I" ++ toString i]
+  | .bulk none => ["Bn"]
+  | .bulk (some b) => ["B" ++ hexOrDash b]
+  | .arr none => ["An"]
+  | .arr (some l) => ("A" ++ toString l.length) :: renderL l
+def renderL : List Resp → List String
+  | [] => []
+  | x :: xs => render x ++ renderL xs
+end
+
+def showTree (v : Resp) : String := ",".intercalate (render v)
+
+def parseSeq (g : List String → Option (Resp × List String)) : Nat → List String → Option (List Resp × List String)
+  | 0, toks => some ([], toks)
+  | n + 1, toks =>
+    match g toks with
+    | none => none
+    | some (x, toks) =>
+      match parseSeq g n toks with
+      | none => none
+      | some (xs, toks) => some (x :: xs, toks)
+
+def parseTree : Nat → List String → Option (Resp × List String)
+  | 0, _ => none
+  | _ + 1, [] => none
+  | f + 1, tok :: rest =>
+    match tok.toList with
+    | 'S' :: h => (ofHex (String.ofList h)).map fun b => (Resp.str b, rest)
+    | 'E' :: h => (ofHex (String.ofList h)).map fun b => (Resp.err b, rest)
+    | 'I' :: d => (String.ofList d).toInt?.map fun i => (Resp.int i, rest)
+    | ['B', 'n'] => some (.bulk none, rest)
+    | 'B' :: h => (ofHex (String.ofList h)).map fun b => (Resp.bulk (some b), rest)
+    | ['A', 'n'] => some (.arr none, rest)
+    | 'A' :: d =>
+      match (String.ofList d).toNat? with
+      | none => none
+      | some n =>
+        match parseSeq (parseTree f) n rest with
+        | none => none
+        | some (xs, rest) => some (.arr (some xs), rest)
+    | _ => none
+
+def readTree (s : String) : Option Resp :=
+  let toks := s.splitOn ","
+  match parseTree (toks.length + 1) toks with
+  | some (v, []) => some v
+  | _ => none
+
+def errName : Err → String
+  | .eof => "eof" | .crlf => "crlf" | .badInt => "badint" | .bytesLen => "byteslen"
+  | .arrayLen => "arraylen" | .badType => "badtype" | .lenOverflow => "alloc" | .fuel => "fuel"
+
+def bulkTok : Option Bytes → String
+  | none => "Bn"
+  | some b => "B" ++ hexOrDash b
+
+def readBulkTok (s : String) : Option (Option Bytes) :=
+  match s.toList with
+  | ['B', 'n'] => some none
+  | 'B' :: h => (ofHex (String.ofList h)).map some
+  | _ => none
+
+def readBulkToks : List String → Option (List (Option Bytes))
+  | [] => some []
+  | t :: ts =>
+    match readBulkTok t, readBulkToks ts with
+    | some b, some bs => some (b :: bs)
+    | _, _ => none
+
+def showArgs (r : Except ArgErr (Bytes × List (Option Bytes))) : String :=
+  match r with
+  | .error _ => "!err"
+  | .ok (cmd, args) =>
+    let a := ",".intercalate (args.map bulkTok)
+    "ok:" ++ hexOrDash cmd ++ ":" ++ (if a.isEmpty then "-" else a)
+
+def handle (line : String) : String :=
+  match line.splitOn " " with
+  | ["enc", t] =>
+    match readTree t with
+    | none => "badcase"
+    | some v =>
+      let bytes := enc v
+      if WF v then hexOrDash bytes ++ " " ++ showTree v
+      else
+        match decode bytes 0 with
+        | .ok (w, _, _) => hexOrDash bytes ++ " " ++ showTree w
+        | .error e => hexOrDash bytes ++ " !" ++ errName e
+  | ["dec", h, _seed, _size] =>
+    match ofHex h with
+    | none => "badcase"
+    | some inp =>
+      let (vs, e) := decodeStream true (inp.length + 1) inp 0
+      let items := vs.map fun (v, off, unread) => showTree v ++ "@" ++ toString off ++ "/" ++ toString unread
+      ";".intercalate (items ++ ["!" ++ errName e])
+  | ["args", t] =>
+    match readTree t with
+    | none => "badcase"
+    | some v => showArgs (parseArgs v)
+  | ["chg", c, a] =>
+    match readBulkTok c, (if a == "-" then some [] else readBulkToks (a.splitOn ",")) with
+    | some cmd, some args =>
+      let r := changeArgsToResp cmd args
+      showTree r ++ " " ++ showArgs (parseArgs r)
+    | _, _ => "badcase"
+  | ["itos", d] =>
+    match d.toInt? with
+    | none => "badcase"
+    | some i => hexOrDash (fmtInt i)
+  | ["pint", h] =>
+    match ofHex h with
+    | none => "badcase"
+    | some s =>
+      match parseInt s with
+      | none => "!badint"
+      | some i => "ok:" ++ toString i
+  | _ => "badcase"
+
 end RSVerif.Drive.C10
